@@ -20,6 +20,13 @@ VERIF = os.path.dirname(os.path.dirname(os.path.abspath(__file__)))
 REPO = os.environ.get("VERIF_REPO", "/repo")
 NCPU = int(os.environ.get("VERIF_JOBS", str(min(16, os.cpu_count() or 4))))
 
+# When a tree other than /repo is under test (calibration against a scratch
+# worktree), evidence and replays go to side directories: evidence/ must only
+# ever describe runs against /repo itself.
+ALT = REPO != "/repo"
+EVIDENCE_DIR = os.path.join(VERIF, ".alt-evidence" if ALT else "evidence")
+REPLAY_DIR = os.path.join(VERIF, ".alt-replays" if ALT else "replays")
+
 EXIT_OK, EXIT_VIOLATION, EXIT_HARNESS = 0, 1, 2
 
 SAN_ENV = {
@@ -262,8 +269,8 @@ class Check:
         if n >= 3 or len(self.violations) >= 25:
             return True   # counted, but do not flood replays
         h = hashlib.sha1((key + json.dumps(replay, sort_keys=True, default=str)).encode()).hexdigest()[:10]
-        os.makedirs(os.path.join(VERIF, "replays"), exist_ok=True)
-        path = os.path.join(VERIF, "replays", "%s-%s.json" % (self.prop, h))
+        os.makedirs(REPLAY_DIR, exist_ok=True)
+        path = os.path.join(REPLAY_DIR, "%s-%s.json" % (self.prop, h))
         obj = {"property": self.prop, "key": key, "what": what, "seed": self.seed,
                "tier": self.tier, "replay": replay}
         with open(path, "w") as f:
@@ -284,8 +291,8 @@ class Check:
               "assumptions": list(assumptions or []),
               "wall_s": round(time.time() - self.t0, 2), "violations": nviol}
         problems = validate_evidence(ev)
-        os.makedirs(os.path.join(VERIF, "evidence"), exist_ok=True)
-        with open(os.path.join(VERIF, "evidence", self.prop + ".json"), "w") as f:
+        os.makedirs(EVIDENCE_DIR, exist_ok=True)
+        with open(os.path.join(EVIDENCE_DIR, self.prop + ".json"), "w") as f:
             json.dump(ev, f, indent=1, default=str)
             f.write("\n")
         for key, (n, what) in sorted(self.known_hits.items()):
